@@ -61,6 +61,7 @@ GRACE_DEFAULT = 3600000
 GRACE_LARGE = 36000000
 TICK_BIG = 7200000
 INFLIGHT_TIMEOUT = 86400000
+T0 = 100                     # History.tla T0: abstract time at which the table is created
 
 
 # ------------------------------------------------------------------------------------------------
@@ -74,7 +75,7 @@ class VirtualClock:
 
     def __init__(self, base_ms: int = BASE_MS) -> None:
         self.base_ms = base_ms
-        self.t = 0
+        self.t = T0
         self._saved: List[Tuple[Any, str, Any]] = []
 
     @property
@@ -82,7 +83,7 @@ class VirtualClock:
         return self.base_ms + self.t
 
     def reset(self) -> None:
-        self.t = 0
+        self.t = T0
 
     def tick(self, d: int) -> None:
         self.t += d
@@ -125,7 +126,7 @@ class VirtualClock:
             if int(VDateTime.now().timestamp() * 1000) != self.now_ms:
                 self.uninstall()
                 raise MachineryError("virtual clock does not round-trip through datetime.now().timestamp()")
-        self.t = 0
+        self.t = T0
         return self
 
     def uninstall(self) -> None:
@@ -688,7 +689,7 @@ class Replayer:
                 rec = {"seq": got.sequence_number, "ts": got.timestamp_ms - self.clock.base_ms, "list": _strip(got.manifest_list)}
                 if rec != {k: fr["snap"][k] for k in ("seq", "ts", "list")}:
                     viol("c09", f"lookup-by-id-changed:{kind}", f"time_travel(snapshot_id={s['id']}) returned {rec}, committed {fr['snap']}")
-        times = {-1, self.clock.t, self.clock.t + 1}
+        times = {-1, T0 - 1, self.clock.t, self.clock.t + 1}
         for c in self.ghost.commits:
             times |= {c["ts"] - 1, c["ts"], c["ts"] + 1}
         for t in sorted(times):
@@ -956,6 +957,12 @@ def check_histories(ctx: Any, cats: Iterable[str], mode: str, exhaustive_len: in
     finally:
         if own_clock:
             clock.uninstall()
+        # platform workaround: pyarrow worker threads that are still winding down when the interpreter
+        # finalises make the process abort ("terminate called without an active exception"); give
+        # them a moment after the last scan
+        import time as _time
+
+        _time.sleep(0.15)
     ctx.count_traces(len(todo))
     ctx.cov[f"histories_replayed_{mode}"] = len(todo)
     ctx.cov[f"steps_replayed_{mode}"] = steps
